@@ -10,9 +10,11 @@ DL_EARLY = 1200                # cases expected to end early: any return before 
 STALE_DETECTABLE = ("ifin", "irst", "igarb", "fin", "rst", "garbage")
 
 
-def _line(n, tr, pool, dial, dl, conc=1):
-    return "k%d tr=%s pool=%s dial=%s dl=%d%s" % (n, tr, ",".join(pool) or "-", ",".join(dial) or "-", dl,
-                                                 "" if conc == 1 else " conc=%d" % conc)
+def _line(n, tr, pool, dial, dl, conc=1, idle=0, bg=0):
+    return "k%d tr=%s pool=%s dial=%s dl=%d%s%s%s" % (n, tr, ",".join(pool) or "-", ",".join(dial) or "-", dl,
+                                                     "" if conc == 1 else " conc=%d" % conc,
+                                                     "" if not idle else " idle=%d" % idle,
+                                                     "" if not bg else " bg=%d" % bg)
 
 
 def c14_gen(rng, tier):
@@ -22,6 +24,20 @@ def c14_gen(rng, tier):
         dl = rng.choice(DL_WAIT) if wait else DL_EARLY
         out.append(_line(len(out), tr, pool, dial, dl, conc))
 
+    # --- a pooled pipelined connection goes SILENT (no FIN/RST) while queries keep arriving: only the read loop's idle
+    #     deadline can declare it dead; it must fire although exchanges keep WRITING on the connection. Short idle
+    #     time-out, background exchanges every 50-80 ms, measured deadline = 5-8 idle time-outs.
+    for _ in range(budget(tier, 2, 12)):
+        for tr in ("tcpp", "tlsp", "udp"):
+            idle = rng.choice([300, 350, 400])
+            out.append(_line(len(out), tr, ["silent" if tr == "udp" else rng.choice(["silent", "half"])],
+                             ["ok"], rng.choice([2000, 2500, 3000]), idle=idle, bg=rng.choice([50, 60, 80])))
+        tr = rng.choice(["tcpp", "tlsp", "udp"])
+        # no background traffic: the idle deadline alone (pooled: retried; fresh: the error is returned early)
+        out.append(_line(len(out), tr, ["silent"], ["ok"], 2500, idle=rng.choice([300, 400])))
+        out.append(_line(len(out), tr, [], ["silent"], 2500, idle=rng.choice([300, 400])))
+        # exchange deadline BEFORE the idle time-out: ends at its own deadline, as without idle=
+        out.append(_line(len(out), tr, ["silent"], ["ok"], 300, idle=2000))
     reps = budget(tier, 3, 40)
     for _ in range(reps):
         # --- fault x placement matrix on fresh connections (dial / write / read)
@@ -139,6 +155,20 @@ def c14_oracle(line, res):
                 "but the exchange failed (dials=%s att=%s)" % (r.get("dials"), r.get("att")))
     pool = [] if f["pool"] == "-" else f["pool"].split(",")
     dial = [] if f["dial"] == "-" else f["dial"].split(",")
+    if "idle" in f and tr in ("tcpp", "tlsp", "udp") and 2 * int(f["idle"]) <= int(f["dl"]):
+        # a silent connection of a pipelined transport is dead after one idle time-out, well before the deadline
+        # (udp: an undecodable or truncated datagram IS a read and re-arms the deadline, so only true silence counts)
+        quiet = ("silent",) if tr == "udp" else ("silent", "half")
+        if pool and all(p in quiet for p in pool) and all(d == "ok" for d in dial):
+            if r.get("res") != "REPLY" or r.get("when") != "early" or r.get("dials") in ("0", None):
+                return ("c14-silent-pooled-not-recovered: the pooled connection went silent, the server is healthy for "
+                        "new connections and the deadline is %s ms with an idle time-out of %s ms, but the exchange "
+                        "did not get its reply over a fresh connection (%s)" % (f["dl"], f["idle"], res))
+            if "after" in r and r["after"].startswith("0/"):
+                return "c14-silent-pooled-not-recovered: exchanges after the switch-over still fail (%s)" % res
+        if not pool and dial and dial[0] in quiet and r.get("when") != "early":
+            return "c14-waited-out: a silent fresh pipelined connection was not closed by the idle time-out (%s)" % res
+        return None
     waits = ("silent", "half", "blackhole") + (("garbage",) if tr == "udp" else ())
     if r.get("res") == "ERR" and r.get("when") == "dl" and not any(t in waits for t in pool + dial):
         return "c14-waited-out: every fault of the script kills the connection, yet the exchange waited for its deadline"
@@ -160,7 +190,7 @@ def c14_classify(line, res):
     f = gens.fields(line)
     r = _res(res)
     np = 0 if f["pool"] == "-" else len(f["pool"].split(","))
-    return "%s/pool%s/%s/%s" % (f["tr"], "0" if np == 0 else ("1" if np == 1 else ("2-6" if np <= 6 else "7+")),
+    return "%s%s/pool%s/%s/%s" % (f["tr"], "+idle" + ("+bg" if "bg" in f else "") if "idle" in f else "", "0" if np == 0 else ("1" if np == 1 else ("2-6" if np <= 6 else "7+")),
                                 r.get("res"), r.get("when"))
 
 
